@@ -7,6 +7,10 @@ CLAIMED = {
    text="Seeded exploration of API-call histories (all 14 mutators x all 14 sighash flag values x clone forks x wire/JSON/CBOR restarts) on 1-4 live Transaction objects; after every event every live object is compared with a freshly parsed copy (preimage/signature equality, memo-slot invariant through the verif hook, model serialisation, fork isolation). Sampling, not proof: evidence of absence over the histories explored; the defect pattern has length 3 and quick covers 20k histories of length 5-40.",
    note="Trusted: Transaction::from_bytes(to_bytes()) yields a history-free object (wire parse never fills the cache - checked by the restart oracle); the verif hook verif_hash_cache is a faithful read-only view; reference serialiser in scen_txhist.rs.",
    technique="deterministic simulation: seeded API-history scheduler with fork/restart events, differential oracle against a history-free copy"),
+ "C16": dict(section="4/C16", scenario="interp-driver",
+   text="Seeded exploration of generated programs (all opcode bytes incl. reserved/disabled/template pseudo-opcodes, Coinbase bits, nested conditionals, edge-encoded operands, spending-transaction context with real signatures, separators inside spliced branches) under seeded driver schedules (next / next_n / run / accessors / clone-forks on up to 3 interpreters) while the worker's real fd 1 is made to fail (ENOSPC via /dev/full, EPIPE, EAGAIN after N bytes, EBADF control) and healed. Oracles: no panic (site#opcode), bounded step count, every schedule observes the reference single-step trace state for state and ends in its outcome, stacks unchanged after an error and after None. Sampling; quick = 20k programs x schedules.",
+   note="Reference trace is the library itself single-stepped with a healthy stdout (self-consistency, not opcode semantics - that is C14). Programs whose next step would allocate > ~1 MiB per operand are dropped; allocator-exhaustion aborts are a `resource` outcome because C16 does not bound memory. overflow-checks are on (as in the repo's own test profile).",
+   technique="deterministic simulation: seeded driver-schedule scheduler over the interpreter step machine with stdout fault injection (real fd 1), differential oracle against a single-step reference trace"),
 }
 
 NA = {
